@@ -306,6 +306,8 @@ def structural_inventories(repo):
     return out
 
 
+# an environment computed from these is a recognised violation; any other unexpected form is undecided, not an alarm
+_ENV_TAINT = ('os.environ', 'sys.path', 'PYTHONPATH', 'PYTHONSTARTUP', 'PYTHONHOME', 'getcwd')
 _ENV_MUTATORS = ('pop', 'popitem', 'update', 'setdefault', 'clear', '__setitem__', '__delitem__')
 
 
@@ -313,7 +315,7 @@ def structural_helper_environment(repo):
     """host environment variables: the helper inherits the caller-configured variables unchanged (None = inherit), jedi
     adds nothing of its own (no PYTHONPATH from the host's sys.path or the project) and never writes to or aliases
     os.environ - decided on the AST of all of jedi/"""
-    bad_assign, bad_kw, bad_environ, popen_env, alias_environ = [], [], [], [], []
+    bad_assign, bad_kw, bad_environ, popen_env, alias_environ, odd_assign = [], [], [], [], [], []
     for rel, path in inv.py_files(repo):
         try:
             t = inv.parse(path)
@@ -330,11 +332,13 @@ def structural_helper_environment(repo):
                     if isinstance(x, ast.Attribute) and x.attr == '_env_vars':
                         rhs = ast.unparse(n.value) if n.value is not None else ''
                         if rhs not in ('env_vars', 'None') or isinstance(n, ast.AugAssign):
-                            bad_assign.append('%s:%d %s' % (rel, n.lineno, ast.unparse(n)[:90]))
+                            (bad_assign if any(w in rhs for w in _ENV_TAINT) else odd_assign).append(
+                                '%s:%d %s' % (rel, n.lineno, ast.unparse(n)[:90]))
             if isinstance(n, ast.Call):
                 for k in n.keywords:
                     if k.arg == 'env_vars' and ast.unparse(k.value) not in ('env_vars', 'self._env_vars'):
-                        bad_kw.append('%s:%d %s' % (rel, n.lineno, ast.unparse(k.value)[:60]))
+                        (bad_kw if any(w in ast.unparse(k.value) for w in _ENV_TAINT) else odd_assign).append(
+                            '%s:%d %s' % (rel, n.lineno, ast.unparse(k.value)[:60]))
                     if k.arg == 'env' and 'Popen' in ast.unparse(n.func):
                         popen_env.append((rel, ast.unparse(k.value)))
             if isinstance(n, ast.Attribute) and n.attr == 'environ' and ast.unparse(n.value) == 'os':
@@ -374,13 +378,14 @@ def structural_helper_environment(repo):
                 (bad_environ if mutated else alias_environ).append(where)
     ok_popen = popen_env == [('jedi/inference/compiled/subprocess/__init__.py', 'self._env_vars')]
     out = [
-        {'id': 'helper-env:vars-unchanged', 'kind': 'effect', 'ok': not bad_assign and not bad_kw,
+        {'id': 'helper-env:vars-unchanged', 'kind': 'effect',
+         'ok': False if (bad_assign or bad_kw) else (None if odd_assign else True),
          'definite': bool(bad_assign or bad_kw),
          'label': 'the environment variables of the helper are exactly what the caller configured (env_vars parameter, '
                   'None = inherit): jedi computes none of its own (e.g. a PYTHONPATH that would put host or project '
-                  'directories on the helper\'s start-up path)', 'detail': repr(bad_assign + bad_kw)},
-        {'id': 'helper-env:popen', 'kind': 'effect', 'ok': ok_popen if popen_env else None,
-         'definite': bool(popen_env) and not ok_popen,
+                  'directories on the helper\'s start-up path)', 'detail': repr(bad_assign + bad_kw + odd_assign)},
+        {'id': 'helper-env:popen', 'kind': 'effect', 'ok': True if ok_popen else None,
+         'definite': False,
          'label': 'the only Popen with an env argument passes self._env_vars itself', 'detail': repr(popen_env)},
         {'id': 'helper-env:os.environ-read-only', 'kind': 'frame',
          'ok': False if bad_environ else (None if alias_environ else True), 'definite': bool(bad_environ),
